@@ -199,23 +199,35 @@ func ruleR14_7(c *Check) {
 			continue
 		}
 		val := tv.Value.String() == "true"
+		// what the guards of this return say about the two boundary comparisons
+		relA, relB := token.ILLEGAL, token.ILLEGAL // r.left ? dst.right ; r.right ? dst.left
+		underInf := false
 		for _, g := range w.Guards(ov, rs) {
-			if g.Implicit {
-				continue
-			}
-			// r.left vs dst.right
 			if op, call, ok := w.threeWay(g.Cond, g.Val, fo(left, orecv), ck); ok && fo(right, oparam)(otherArg(call, fo(left, orecv))) {
-				r.Check(!val && op == token.GTR, ov, k.key("no overlap when this range starts after the other ends", w, rs), rs, "overlapsWith answers "+tv.Value.String()+" under r.left "+op.String()+" dst.right")
-				after = after || (!val && op == token.GTR)
+				if relA == token.ILLEGAL || op == token.GTR {
+					relA = op
+				}
 			}
 			if op, call, ok := w.threeWay(g.Cond, g.Val, fo(right, orecv), ck); ok && fo(left, oparam)(otherArg(call, fo(right, orecv))) {
-				r.Check(!val && op == token.LSS, ov, k.key("no overlap when this range ends before the other starts", w, rs), rs, "overlapsWith answers "+tv.Value.String()+" under r.right "+op.String()+" dst.left")
-				before = before || (!val && op == token.LSS)
+				if relB == token.ILLEGAL || op == token.LSS {
+					relB = op
+				}
 			}
-			if w.mentions(g.Cond, w.Field("badger.keyRange.inf")) && g.Val {
-				r.Check(val, ov, k.key("an infinite range overlaps everything", w, rs), rs, "overlapsWith answers false for an infinite range")
-				infTrue = infTrue || val
+			if w.mentions(g.Cond, w.Field("badger.keyRange.inf")) && g.Val && !g.Implicit {
+				underInf = true
 			}
+		}
+		if underInf {
+			r.Check(val, ov, k.key("an infinite range overlaps everything", w, rs), rs, "overlapsWith answers false for an infinite range")
+			infTrue = infTrue || val
+			continue
+		}
+		if !val && (relA != token.ILLEGAL || relB != token.ILLEGAL) {
+			// "no overlap" must rest on one of: this range starts after the other ends, or ends before it starts
+			okA, okB := relA == token.GTR, relB == token.LSS
+			r.Check(okA || okB, ov, k.key("no overlap only when one range lies strictly beyond the other", w, rs), rs, "overlapsWith answers false under r.left "+relA.String()+" dst.right / r.right "+relB.String()+" dst.left")
+			after = after || okA
+			before = before || okB
 		}
 	}
 	r.Check(before && after && infTrue, ov, "overlap test: disjoint only if strictly before or strictly after; inf overlaps", nil, "keyRange.overlapsWith lacks one of: r.left > dst.right ⇒ false, r.right < dst.left ⇒ false, inf ⇒ true")
